@@ -26,7 +26,7 @@ MANIFEST = dict(
     technique='bounded-exhaustive enumeration of fixed-point inputs and truncation masks on the real runtime against exact rational arithmetic',
     text='For (l,f) = (4,2),(6,3),(8,4) all inputs and all mask scripts, for (12,6),(16,8),(24,12),(32,16) boundary alphabets: +,-,neg,comparisons '
          'exact; products within 1 unit (2(1+|x|) for a public float); trunc = floor or ceiling; division/reciprocal within 16(1+|x|) units; sin/cos '
-         'within 4 units; x**n within n(1+|x|)^(n-1) units; then (3,1),(5,2) multi-party runs on alphabets.',
+         'within 4 units; x**n within n(1+|x|)^(n-1) units; then (3,1),(4,1),(5,2) multi-party runs on alphabets.',
     ref='DESIGN 5/C02, 6', note='trusted: Fraction arithmetic, math.sin/cos to 1e-15, randomness seam')
 
 SMALL = [(4, 2), (6, 3), (8, 4)]
@@ -228,7 +228,7 @@ def jobs(tier, seed):
             step = 3 if (l, f) in SMALL else 6
             for i in range(0, len(light), step):
                 out.append(dict(engine='sp', k=k, ops=light[i:i + step], tier=tier, seed=seed))
-    cfgs = ((3, 1, False), (3, 1, True), (5, 2, False)) if tier == 'quick' else exact.CORE_CFGS
+    cfgs = ((3, 1, False), (3, 1, True), (4, 1, False), (5, 2, False)) if tier == 'quick' else exact.CORE_CFGS
     for (m, t, no_prss) in cfgs:
         n = 4 if m <= 3 else 8
         for part in range(n):
